@@ -310,6 +310,7 @@ impl Check for C13Check {
                 ctx.class("random");
                 check_input(&s, ctx, true);
             }
+            (_, Input::Text(s)) => check_input(s, ctx, true),
             _ => {}
         }
     }
